@@ -1,0 +1,47 @@
+//go:build verif && verif_plugin
+
+package canary
+
+import (
+	"io"
+
+	"k8s.io/cli-runtime/pkg/genericclioptions"
+	"sigs.k8s.io/controller-runtime/pkg/client"
+)
+
+func verifStreams(out io.Writer) genericclioptions.IOStreams {
+	return genericclioptions.IOStreams{Out: out, ErrOut: out}
+}
+
+// RunPauseForVerif runs the body of `kubectl-eds canary pause|unpause` with an injected client.
+func RunPauseForVerif(c client.Client, ns, name string, pause bool, out io.Writer) error {
+	o := newPauseOptions(verifStreams(out), pause)
+	o.client, o.userNamespace, o.userExtendedDaemonSetName, o.args = c, ns, name, []string{name}
+	if err := o.validate(); err != nil {
+		return err
+	}
+
+	return o.run()
+}
+
+// RunValidateForVerif runs the body of `kubectl-eds canary validate` with an injected client.
+func RunValidateForVerif(c client.Client, ns, name string, out io.Writer) error {
+	o := newValidateOptions(verifStreams(out))
+	o.client, o.userNamespace, o.userExtendedDaemonSetName, o.args = c, ns, name, []string{name}
+	if err := o.validate(); err != nil {
+		return err
+	}
+
+	return o.run()
+}
+
+// RunFailForVerif runs the body of `kubectl-eds canary fail` with an injected client.
+func RunFailForVerif(c client.Client, ns, name string, out io.Writer) error {
+	o := newfailOptions(verifStreams(out), cmdFail)
+	o.client, o.userNamespace, o.userExtendedDaemonSetName, o.args = c, ns, name, []string{name}
+	if err := o.validate(); err != nil {
+		return err
+	}
+
+	return o.run()
+}
